@@ -28,6 +28,9 @@ func init() {
 			{ID: "C19.9", Desc: "a 304 replaces the fields it carries (a Vary that grows with every validation grows the index record)", Run: func(c *Ctx) { ruleMergeFilter(c, "C19.9") }, MinSites: 1},
 			{ID: "C19.10", Desc: "the variant is resolved from the request the matcher sees, never from Response.Request", Run: func(c *Ctx) { ruleStorerGetsRoundTripRequest(c, "C19.10") }, MinSites: 1},
 			{ID: "C19.11", Desc: "the list a revalidation writes back into is the list its position refers to", Run: func(c *Ctx) { ruleC08_9(c); renameRule(c, "C08.9", "C19.11") }, MinSites: 1},
+			{ID: "C19.12", Desc: "no entry is left unreferenced by a list written from a snapshot", Run: func(c *Ctx) { ruleIndexUpdateAtomic(c, "C19.12") }, MinSites: 1},
+			{ID: "C19.13", Desc: "a list is deleted only together with the entries it names (Location / Content-Location targets included)", Run: func(c *Ctx) { ruleIndexDeleteAfterEntries(c, "C19.13") }, MinSites: 1},
+			{ID: "C19.14", Desc: "the id enumerator of a reference list visits every reference", Run: func(c *Ctx) { ruleRefEnumeratorVisitsAll(c, "C19.14") }, MinSites: 1},
 		},
 	})
 	register(&Property{
